@@ -520,7 +520,8 @@ def i_LPM(i, fmap):
         dst, src = i.operands
     except ValueError:
         dst, src = R[0], Z
-    fmap[dst] = fmap(Z)
+    # load the program memory byte pointed to by Z
+    fmap[dst] = fmap(mem(Z, dst.size))
     if i.misc["flg"] == 1:
         fmap[Z] = fmap(Z + 1)
 
